@@ -18,7 +18,8 @@ while i < len(args):
 tracked = subprocess.run(["git", "ls-files"], cwd="/repo", capture_output=True, text=True).stdout.split()
 nsel = 0
 for fn in os.listdir(final_dir):
-    cands = [t for t in tracked if os.path.basename(t) == fn and t.startswith("src/")]
+    # a file name with "__" is a full path (src__cobra__core__reaction.py), else a basename
+    cands = [fn.replace("__", "/")] if "__" in fn and fn.replace("__", "/") in tracked else [t for t in tracked if os.path.basename(t) == fn and t.startswith("src/")]
     if len(cands) != 1: continue
     path = cands[0]
     head = subprocess.run(["git", "show", "HEAD:" + path], cwd="/repo", capture_output=True, text=True).stdout.splitlines(keepends=True)
